@@ -3,6 +3,7 @@ CONSTANTS
  Classes <- SmallClasses
  HashedClasses <- SmallHashedPinned
  VizHashed = TRUE
+ FlagOverwritesConfig = FALSE
  EventsHashed = FALSE
  NOrders = 2
  KeyDependsOnOrder = TRUE
